@@ -685,6 +685,46 @@ def c01_10(ck, prog, rid='C01.10'):
         raise AnalysisBroken('comparisons with the wire-format limits not found (%d)' % n)
 
 
+def c01_11(ck, prog, rid='C01.11'):
+    r = ck.rule(rid, 'the block reader of fixed-size arrays hands out a count that describes the block it hands out: '
+                'the element count is the byte length of that very block (the bytes from the current position to the '
+                'end of the array) divided by the element alignment', 'ABS',
+                breaks='after the iterator advanced, the caller is told the array still has all its elements: it reads '
+                'past the end of the array into the following arguments or past the message', floor=1)
+    REC = 'dbus/dbus-marshal-recursive.c'
+    fn = prog.fn('_dbus_type_reader_read_fixed_multi', REC)
+    if len(fn.params) < 3:
+        raise AnalysisBroken('read_fixed_multi: parameters changed')
+    vp, np_ = fn.params[1]['id'], fn.params[2]['id']
+    blocks = [rhs for b, i, ev in fn.events() for lhs, how, rhs in written_lvalues(ev)
+              if lhs.get('k') == 'un' and lhs['op'] == '*' and is_ref(lhs['e']) and lhs['e'].get('id') == vp
+              and rhs is not None and rhs.get('k') == 'call']
+    counts = [rhs for b, i, ev in fn.events() for lhs, how, rhs in written_lvalues(ev)
+              if lhs.get('k') == 'un' and lhs['op'] == '*' and is_ref(lhs['e']) and lhs['e'].get('id') == np_
+              and rhs is not None]
+    if not blocks or not counts:
+        raise AnalysisBroken('read_fixed_multi: block / count stores not found')
+    ok = True
+    for blk in blocks:
+        if blk.get('callee') != '_dbus_string_get_const_data_len' or len(blk['args']) < 3 \
+                or not is_member(blk['args'][1], 'value_pos', 'DBusTypeReader'):
+            r.violation('read_fixed_multi:block-from-current-position', fn.name, REC, blk['line'],
+                        'the block handed out does not start at the reader\'s current position: %s' % estr(blk)[:120])
+            ok = False
+            continue
+        blen = blk['args'][2]
+        for cnt in counts:
+            good = cnt.get('k') == 'bin' and cnt['op'] == '/' and same_expr(cnt['l'], blen) \
+                and is_ref(cnt['r'])
+            if not good:
+                r.violation('read_fixed_multi:count-matches-block', fn.name, REC, blk['line'],
+                            'the block handed out is %s bytes long but the element count is %s' % (estr(blen), estr(cnt)))
+                ok = False
+    if ok:
+        r.ok('read_fixed_multi:block-from-current-position')
+        r.ok('read_fixed_multi:count-matches-block')
+
+
 def run(ck):
     ck.explanation = (
         'Static rules over dbus-message.c, dbus-marshal-header.c, dbus-marshal-validate.c, dbus-marshal-basic.c, '
@@ -711,3 +751,4 @@ def run(ck):
         from rules.C16 import c16_5
         c16_5(ck, prog, 'C01.9')
         c01_10(ck, prog)
+        c01_11(ck, prog)
